@@ -89,7 +89,9 @@ def chain (hTrace hParent : Bytes) (sampled : Nat → Bool) (ids : Nat → Bytes
 
 inductive WOp where
   | writeHeader (code : Int)
-  | write (n : Nat)
+  /-- `Write(b)` with `len(b) = n`; the underlying writer accepts `acc ≤ n` bytes (net/http refuses the body after a
+      204 / 304, or beyond the declared Content-Length, and returns the count it took) -/
+  | write (n acc : Nat)
 deriving DecidableEq, Repr
 
 /-- the underlying `http.ResponseWriter`: status actually sent (first final WriteHeader, or 200
@@ -101,7 +103,7 @@ deriving DecidableEq, Repr
 
 def Wire.step (w : Wire) : WOp → Wire
   | .writeHeader c => if w.status.isNone then { w with status := some c } else w
-  | .write n => { status := some (w.status.getD 200), bytes := w.bytes + n }
+  | .write _ acc => { status := some (w.status.getD 200), bytes := w.bytes + acc }
 
 /-- `ResponseCapture` fields (after the two `fix:` commits 629d801, 79ee204) -/
 structure Capture where
@@ -111,6 +113,6 @@ deriving DecidableEq, Repr
 
 def Capture.step (c : Capture) : WOp → Capture
   | .writeHeader code => if c.status < 200 then { c with status := code } else c
-  | .write n => { status := if c.status = 0 then 200 else c.status, length := c.length + n }
+  | .write _ acc => { status := if c.status = 0 then 200 else c.status, length := c.length + acc }   -- the count Write returned
 
 end GoaVerif.Middleware
